@@ -244,6 +244,45 @@ package proxy
 //@   ensures [nil_only_if_none_available] result == nil ==> forall(k, 0, len(u.Hosts), !u.Hosts[k].Available())
 //@   loop 1 invariant 0 <= #i && #i <= len(pool) && pool == u.Hosts && (allUnavailable ==> forall(k, 0, #i, !pool[k].Available()))
 
+//@ unit upstream_getters frames=on props=C05,C04 filter=`proxy\.staticUpstream\)\.(GetHostCount|GetTryDuration|GetTryInterval|GetTimeout|GetFallbackDelay|From)$`
+//@ // The retry loop of Proxy.ServeHTTP takes its duration, interval and pool size from these; each is the configured value.
+//@ func (*staticUpstream).GetHostCount
+//@   requires u != nil
+//@   ensures [whole_pool] result == len(u.Hosts)
+//@ func (*staticUpstream).GetTryDuration
+//@   requires u != nil
+//@   ensures [configured_value] result == u.TryDuration
+//@ func (*staticUpstream).GetTryInterval
+//@   requires u != nil
+//@   ensures [configured_value] result == u.TryInterval
+//@ func (*staticUpstream).GetTimeout
+//@   requires u != nil
+//@   ensures [configured_value] result == u.Timeout
+//@ func (*staticUpstream).GetFallbackDelay
+//@   requires u != nil
+//@   ensures [configured_value] result == u.FallbackDelay
+//@ func (*staticUpstream).From
+//@   requires u != nil
+//@   ensures [configured_value] result == u.from
+
+//@ unit policy_constructors props=C05 filter=`proxy\.init#1\$[0-9]+$`
+//@ // Every `policy` directive gets its own policy object: RoundRobin keeps its cursor in the object, so "round_robin visits
+//@ // available backends evenly" per proxy block needs an object that no other block advances.
+//@ func init#1$1
+//@   ensures [own_policy_object] fresh(result)
+//@ func init#1$2
+//@   ensures [own_policy_object] fresh(result)
+//@ func init#1$3
+//@   ensures [own_policy_object] fresh(result)
+//@ func init#1$4
+//@   ensures [own_policy_object] fresh(result)
+//@ func init#1$5
+//@   ensures [own_policy_object] fresh(result)
+//@ func init#1$6
+//@   ensures [own_policy_object] fresh(result)
+//@ func init#1$7
+//@   ensures [own_policy_object] fresh(result)
+
 //@ unit setup_sweep props=C11 files=setup.go,upstream.go nilchecks=on nonnil_params=on dispenser_variants=on exclude=`staticUpstream\)\.(HealthCheckWorker|NewHost|Select|healthCheck|healthCheck\$1|resolveHost)$|headerReplacements\)\.Add$|proxy\.(NewStaticUpstreams|RegisterPolicy|parseUpstream|replacePort)$` filter=`.`
 //@ // Safety sweep of this directive's setup code: index, slice, division, nil-map store, nil dereference, explicit panic,
 //@ // and termination of the loops driven by the token cursor. No functional contract; callees in the dispenser through their contracts.
